@@ -4,7 +4,7 @@
     (id, timestamp); [order] is the iteration order of the hash map, about which only
     [forall l e, In e (order l) <-> In e l] is assumed. *)
 From Coq Require Import List NArith.
-From PV Require Import Model.SecretBundle Proofs.SecretBundle.
+From PV Require Import Model.SecretBundle Proofs.SecretBundle Oracle.C36.
 Import ListNotations.
 Local Open Scope N_scope.
 
